@@ -60,7 +60,11 @@ KahanStep(e) ==
                         \cup (IF e.act.a \in {"add_block", "add_cycle", "lfold", "rfold"} /\ e.act.rep >= 1000 /\ DySign(regs'[e.act.r].ex) < 0 THEN {"C08.negative_sum_stream"} ELSE {})
                         \cup (IF e.act.a \in {"add_block", "add_cycle"} /\ e.act.rep >= 1000 /\ DySign(regs'[e.act.r].ab) > 0
                                  /\ DyLt(regs'[e.act.r].ab, Dy(BigOfInt(1), IF e.ty = "f32" THEN -100 ELSE -900)) THEN {"C08.tiny_magnitude_stream." \o e.ty} ELSE {})
-                        \cup (IF e.nreg >= 8 /\ e.act.a \in {"merge", "merge_by_plus"} THEN {"C08.merge_tree"} ELSE {}))
+                        \cup (IF e.nreg >= 8 /\ e.act.a \in {"merge", "merge_by_plus"} THEN {"C08.merge_tree"} ELSE {})
+                        \* folds of registers that are each below half an ulp of the running sum
+                        \cup (IF e.act.a \in {"lfold", "rfold", "lfold_plus", "rfold_plus"} /\ e.act.rep >= 1000
+                                 /\ DyLt(Dy(BigOfInt(1), IF e.ty = "f32" THEN 29 ELSE 59), DyAbs(regs'[e.act.r].ex))
+                              THEN {"C08.fold_of_absorbed_registers." \o e.ty} ELSE {}))
 
 StatStep(e) ==
     LET st == Moments(e.data)  prec == PrecT(e.ty) IN
@@ -69,7 +73,7 @@ StatStep(e) ==
                 ~(/\ e.stats.mean.tag = "fin" /\ MeanOK(st, FDy(e.stats.mean), prec)
                   /\ e.stats.var.tag = "fin" /\ VarLikeOK(st, FDy(e.stats.var), prec, 3)
                   /\ e.stats.count = st.n)}
-    /\ cov' = Bump(cov, {"C08.statistics_inherit", "C08.statistics." \o e.ty})
+    /\ cov' = Bump(cov, {"C08.statistics_inherit", "C08.statistics." \o e.ty, "C08.statistics_fed_by." \o e.style})
 
 Next == /\ l <= Len(Rec)
         /\ IF Rec[l].op = "kahan.step" THEN KahanStep(Rec[l]) ELSE StatStep(Rec[l])
